@@ -339,14 +339,14 @@ func TestVerifRender(t *testing.T) {
 		rng := rand.New(rand.NewSource(base*1000003 + int64(i)))
 		o := verifObject(rng, 2+rng.Intn(3))
 		kind := rng.Intn(6)
+		alsoNew := false
 		desc := fmt.Sprintf("type=%v keys=%d kind=%d", o["type"], len(o), kind)
 		if i >= in.Count-in.Systematic {
 			/* the last cases are the systematic single deviations */
 			var what string
 			o, kind, what = verifSystematic(i - (in.Count - in.Systematic))
-			if rng.Intn(3) == 0 {
-				kind = 4
-			}
+			/* always through the constructor of its own kind; a third of them through New as well (below) */
+			alsoNew = rng.Intn(3) == 0
 			desc = what
 		}
 		if c, ok := o["content"].(string); ok {
@@ -407,6 +407,9 @@ func TestVerifRender(t *testing.T) {
 				verifSlowest, verifSlowestWhat = ms, "construction"
 			}
 			size = verifExercise(item)
+			if alsoNew && kind != 4 {
+				size += verifExercise(New(map[string]any(o), nil))
+			}
 		})
 		watchdog.Stop()
 		outcome := "ok"
